@@ -133,12 +133,12 @@ CLAIMED = {
         "6 (C07-C09)",
     ),
     "C09": (
-        "Coq refutation witness for the internal assertion (coincident timers) + the counter invariant holding across crashes + caller-answer lemma + trace-equality correspondence + schedule oracle with a follow-up probe send",
-        "5 theorems in coq/props/C09.v: the sender's own consistency check DOES trip (witness: echo timer and caller timeout in one loop "
+        "Coq invariant by induction over arbitrary runs (while waiting, something that will move the machine on is pending; at rest => not waiting, for every run without a tripped assertion) + refutation witness for the internal assertion (coincident timers) + the counter invariant holding across crashes + caller-answer lemmas + trace-equality correspondence + schedule oracle with a follow-up probe send",
+        "7 theorems in coq/props/C09.v: NEVER WEDGED (coq/proof/P_QosAlive.v): in EVERY run -- any events (calls, packets, connection events, stalls, outside cancels), tie policy, transport behaviour, number of steps -- in which no internal assertion has tripped, once the run has come to rest (nothing ready to run, no timer armed) the state machine is idle or inactive, not waiting for an echo or a reply (C09_at_rest_not_waiting; premises met by runs that did wait: C09_at_rest_nonvacuous); the invariant behind it, by induction over arbitrary runs through every callback and the loop's batch boundaries: while it waits, a deferred effect_state or the live expiry task of that wait (about to start / sleeping with its timer armed / woken) is pending. the sender's own consistency check DOES trip (witness: echo timer and caller timeout in one loop "
         "iteration, timer first) -- KNOWN; the counter invariant holds in every reachable world, crashed or not; a woken caller is always "
         "answered; a caller cancelled from OUTSIDE (an outer wait_for such as the discovery poller's, a shutdown: the Cancel event of the model) has its future cancelled and its wake-up scheduled, is answered with the cancellation, "
         "and neither step touches the state machine (C09_cancel_schedules_wake, C09_cancelled_caller_answered) -- so a command in flight is then cleared by its expiry timer alone, which the correspondence and the oracle watch on generated schedules with such cancels; "
-        "a delayed write that fails fails only the command still in flight (fail_write; the code's guard is fix f67cb97). PARTIAL: 'quiescent => idle, nothing pending' and 'a fresh command succeeds afterwards' are decided by the oracle on "
+        "a delayed write that fails fails only the command still in flight (fail_write; the code's guard is fix f67cb97). PARTIAL: for runs WITH a tripped assertion, and for 'every caller answered' and 'a fresh command succeeds afterwards' at run level, the verdict is the oracle's, on "
         "the implementation after every generated episode (final state, pending queue entries, loop exceptions, a probe command to a "
         "responsive device), not by theorems. Four causes of tripped assertions are recorded as KNOWN findings (three fixed symptoms of a fifth are listed as fixed).",
         "Trusted: Coq kernel, translator (FSM constants), harness (virtual-time loop = CPython's own _run_once with a clock-advancing selector, in-memory transport). Modelled not verified: asyncio semantics as assumed by the mini loop (time stands still within an iteration unless an explicit Stall event -- a callback that takes wall time -- moves it, in the model and on the virtual loop alike); threading.Lock, GC timing of never-retrieved task exceptions, the 0418 null-reply special case, the impersonation alert of PortProtocol.send_cmd. Liveness is only 'a wake-up is armed / a wake-up answers' -- that due timers run is the event loop's job.",
